@@ -440,3 +440,530 @@ Qed.
 
 Theorem value_error_is_minus_inf : C17_value_error_is_minus_inf_stmt.
 Proof. intros s g s' H. unfold likelihood_outcome. rewrite H. reflexivity. Qed.
+
+(** * ownership *)
+Definition step' (cur : option path) (n : path) : option path :=
+  match cur with
+  | None => Some n
+  | Some c => if Nat.leb (length c) (length n) then Some n else Some c
+  end.
+Lemma step'_idem cur n : step' (step' cur n) n = step' cur n.
+Proof.
+  unfold step'. destruct cur as [c|].
+  - destruct (Nat.leb (length c) (length n)) eqn:E; [rewrite Nat.leb_refl; reflexivity | rewrite E; reflexivity].
+  - rewrite Nat.leb_refl. reflexivity.
+Qed.
+Lemma owner_step_get name ow p0 p :
+  kw_get p (owner_step name ow p0) = if path_eqb p p0 then step' (kw_get p0 ow) name else kw_get p ow.
+Proof.
+  unfold owner_step, step'. destruct (path_eqb p p0) eqn:E.
+  - apply path_eqb_eq in E. subst p0. destruct (kw_get p ow) as [c|] eqn:Ec.
+    + destruct (Nat.leb (length c) (length name)); [apply kw_get_set_same | exact Ec].
+    + apply kw_get_set_same.
+  - assert (Hne : p <> p0) by (intros ->; rewrite path_eqb_refl in E; discriminate).
+    destruct (kw_get p0 ow) as [c|].
+    + destruct (Nat.leb (length c) (length name)); [apply kw_get_set_other, Hne | reflexivity].
+    + apply kw_get_set_other, Hne.
+Qed.
+Lemma owner_inner_get name params : forall ow p,
+  kw_get p (fold_left (owner_step name) params ow) = if memp p params then step' (kw_get p ow) name else kw_get p ow.
+Proof.
+  induction params as [|p0 params IH]; intros ow p; [reflexivity|]. cbn [fold_left]. rewrite IH, memp_cons, owner_step_get.
+  destruct (path_eqb p p0) eqn:E; cbn [orb].
+  - apply path_eqb_eq in E. subst p0. destruct (memp p params); [apply step'_idem | reflexivity].
+  - reflexivity.
+Qed.
+(** the owner of [p] after the declared names [named] have been processed *)
+Definition own_fold (all : list path) (p : path) (named : list path) (cur : option path) : option path :=
+  fold_left (fun cur n => if memp p (aliases_of all n) then step' cur n else cur) named cur.
+Lemma owners_get_gen all p named : forall ow,
+  kw_get p (fold_left (fun ow np => fold_left (owner_step (fst np)) (snd np) ow) (map (alias_entry all) named) ow)
+  = own_fold all p named (kw_get p ow).
+Proof.
+  induction named as [|n named IH]; intros ow; [reflexivity|]. cbn [map fold_left own_fold alias_entry fst snd].
+  rewrite IH. cbn [alias_entry fst snd]. rewrite owner_inner_get. reflexivity.
+Qed.
+Lemma owners_get all p named : kw_get p (owners (map (alias_entry all) named)) = own_fold all p named None.
+Proof. unfold owners. rewrite owners_get_gen. reflexivity. Qed.
+
+Lemma memp_aliases all p n : In p all -> memp p (aliases_of all n) = does_contain_in_order p n.
+Proof.
+  intros Hp. destruct (does_contain_in_order p n) eqn:E.
+  - apply memp_In, in_aliases_of. split; assumption.
+  - apply memp_false. rewrite in_aliases_of. intros [_ H]. congruence.
+Qed.
+
+Lemma own_fold_cons all p n0 named cur :
+  own_fold all p (n0 :: named) cur = own_fold all p named (if memp p (aliases_of all n0) then step' cur n0 else cur).
+Proof. reflexivity. Qed.
+
+(** the result of the fold: a declared name matching [p], at least as long as [cur] and
+    as every declared name matching [p] *)
+Lemma own_fold_spec all p (Hp : In p all) named : forall cur,
+  let r := own_fold all p named cur in
+  (r = cur \/ exists n, r = Some n /\ In n named /\ does_contain_in_order p n = true)
+  /\ (forall c, cur = Some c -> exists w, r = Some w /\ length c <= length w)
+  /\ (forall n, In n named -> does_contain_in_order p n = true -> exists w, r = Some w /\ length n <= length w).
+Proof.
+  induction named as [|n0 named IH]; intros cur; cbn zeta.
+  - cbn [own_fold fold_left]. split; [left; reflexivity|]. split; [intros c ->; exists c; split; [reflexivity | lia] | intros n []].
+  - rewrite own_fold_cons, (memp_aliases all p n0 Hp).
+    destruct (does_contain_in_order p n0) eqn:E.
+    + destruct (IH (step' cur n0)) as (H1 & H2 & H3). cbv zeta in H1, H2, H3.
+      assert (Hs : exists w0, step' cur n0 = Some w0 /\ length n0 <= length w0 /\ (forall c, cur = Some c -> length c <= length w0)
+                              /\ (w0 = n0 \/ cur = Some w0)).
+      { unfold step'. destruct cur as [c|].
+        - destruct (Nat.leb (length c) (length n0)) eqn:El.
+          + apply Nat.leb_le in El. exists n0. repeat split; [lia | intros c' [= <-]; lia | left; reflexivity].
+          + apply Nat.leb_gt in El. exists c. repeat split; [lia | intros c' [= <-]; lia | right; reflexivity].
+        - exists n0. repeat split; [lia | intros c' [=] | left; reflexivity]. }
+      destruct Hs as (w0 & Hw0 & Hl0 & Hc0 & Hor). destruct (H2 w0 Hw0) as (w & Hw & Hlw).
+      split; [|split].
+      * destruct H1 as [H1|(n & Hn & Hin & Hm)].
+        -- destruct Hor as [->|Hcur].
+           ++ right. exists n0. split; [rewrite H1; exact Hw0|]. split; [left; reflexivity | exact E].
+           ++ left. rewrite H1, Hw0. symmetry. exact Hcur.
+        -- right. exists n. split; [exact Hn|]. split; [right; exact Hin | exact Hm].
+      * intros c Hc. exists w. split; [exact Hw|]. specialize (Hc0 c Hc). lia.
+      * intros n [<-|Hin] Hm; [exists w; split; [exact Hw | lia]|]. apply H3; assumption.
+    + destruct (IH cur) as (H1 & H2 & H3). cbv zeta in H1, H2, H3. split; [|split].
+      * destruct H1 as [H1|(n & Hn & Hin & Hm)]; [left; exact H1|]. right. exists n. split; [exact Hn|]. split; [right; exact Hin | exact Hm].
+      * exact H2.
+      * intros n [<-|Hin] Hm; [congruence|]. apply H3; assumption.
+Qed.
+
+(** the owner is a declared name that matches and no matching declared name is longer *)
+Lemma owner_max all p named w : In p all -> own_fold all p named None = Some w ->
+  In w named /\ does_contain_in_order p w = true /\
+  forall n, In n named -> does_contain_in_order p n = true -> length n <= length w.
+Proof.
+  intros Hp Hw. destruct (own_fold_spec all p Hp named None) as (H1 & _ & H3). cbv zeta in H1, H3. rewrite Hw in H1, H3.
+  destruct H1 as [H1|(n & [= <-] & Hin & Hm)]; [discriminate|]. split; [exact Hin|]. split; [exact Hm|].
+  intros n Hn Hnm. destruct (H3 n Hn Hnm) as (w' & [= <-] & Hl). exact Hl.
+Qed.
+Lemma owner_exists all p named n : In p all -> In n named -> does_contain_in_order p n = true ->
+  exists w, own_fold all p named None = Some w.
+Proof.
+  intros Hp Hn Hm. destruct (own_fold_spec all p Hp named None) as (_ & _ & H3). cbv zeta in H3.
+  destruct (H3 n Hn Hm) as (w & Hw & _). eauto.
+Qed.
+
+(** * get_named_params *)
+Lemma last_opt_In {A} (l : list A) : l <> [] -> exists a, last_opt l = Some a /\ In a l.
+Proof.
+  induction l as [|a l IH]; [congruence|]. intros _. destruct l as [|b l].
+  - exists a. split; [reflexivity | left; reflexivity].
+  - destruct IH as (x & Hx & Hin); [discriminate|]. exists x. split; [exact Hx | right; exact Hin].
+Qed.
+Lemma owned_by_sub ow n params p : In p (owned_by ow n params) -> In p params.
+Proof. unfold owned_by. intros H. apply filter_In in H. apply H. Qed.
+Lemma read_param_In ow n params : params <> [] -> exists p, read_param ow (n, params) = Some p /\ In p params.
+Proof.
+  intros Hne. unfold read_param. cbn [fst snd]. destruct (owned_by ow n params) as [|p0 l] eqn:E.
+  - apply last_opt_In, Hne.
+  - destruct (last_opt_In (p0 :: l)) as (p & Hp & Hin); [discriminate|]. exists p. split; [exact Hp|].
+    apply (owned_by_sub ow n). rewrite E. exact Hin.
+Qed.
+Lemma read_param_owned ow n params : owned_by ow n params <> [] ->
+  exists p, read_param ow (n, params) = Some p /\ In p params /\ kw_get p ow = Some n.
+Proof.
+  intros Hne. unfold read_param. cbn [fst snd]. destruct (owned_by ow n params) as [|p0 l] eqn:E; [congruence|].
+  destruct (last_opt_In (p0 :: l)) as (p & Hp & Hin); [discriminate|]. exists p. split; [exact Hp|].
+  rewrite <- E in Hin. unfold owned_by in Hin. apply filter_In in Hin. destruct Hin as [Hin Ho]. split; [exact Hin|].
+  destruct (kw_get p ow) as [o|]; [|discriminate]. apply path_eqb_eq in Ho. subst. reflexivity.
+Qed.
+
+Lemma kw_get_In_Some {A} k (d : list (path * A)) : In k (map fst d) -> exists v, kw_get k d = Some v.
+Proof. intros H. destruct (kw_get k d) eqn:E; [eauto|]. apply kw_get_In_None in E. contradiction. Qed.
+
+Lemma flat_map_singletons {A B} (h : A -> list B) (h' : A -> B) l :
+  (forall x, In x l -> h x = [h' x]) -> flat_map h l = map h' l.
+Proof.
+  induction l as [|x l IH]; intros H; [reflexivity|]. cbn [flat_map map]. rewrite (H x) by (left; reflexivity).
+  rewrite IH by (intros y Hy; apply H; right; exact Hy). reflexivity.
+Qed.
+
+Theorem num_dims_is_declared_count : C17_num_dims_is_declared_count_stmt.
+Proof.
+  intros m named its Hits Hnd Hmatch.
+  assert (Hg : exists l, get_named_params (mk_nstate m (Some named)) = inr l /\ map fst l = named).
+  { unfold get_named_params, named_params. cbn [ns_model ns_named mk_nstate]. rewrite Hits, (param_names_items m its Hits).
+    eexists. split; [reflexivity|]. unfold get_named_items. cbv zeta.
+    rewrite create_alias_map_NoDup by exact Hnd. set (ow := owners _).
+    assert (Hent : forall n, In n named -> exists v, named_entry its ow (alias_entry (map fst its) n) = [(n, v)]).
+    { intros n Hn. unfold each_matches in Hmatch. rewrite forallb_forall in Hmatch. specialize (Hmatch n Hn).
+      apply existsb_exists in Hmatch. destruct Hmatch as (k & Hk & Hm).
+      assert (Hne : aliases_of (map fst its) n <> []).
+      { intros E. assert (Hin : In k (aliases_of (map fst its) n)) by (apply in_aliases_of; split; assumption).
+        rewrite E in Hin. destruct Hin. }
+      destruct (read_param_In ow n _ Hne) as (p & Hp & Hin). apply in_aliases_of in Hin. destruct Hin as [Hin _].
+      destruct (kw_get_In_Some p its Hin) as (v & Hv). exists v. unfold named_entry, alias_entry. rewrite Hp. cbn [fst]. rewrite Hv.
+      reflexivity. }
+    clear Hmatch Hnd. clearbody ow. induction named as [|n named IH]; [reflexivity|]. cbn [map flat_map].
+    destruct (Hent n (or_introl eq_refl)) as (v & ->). cbn [app map fst]. f_equal. apply IH. intros n' Hn'. apply Hent. right. exact Hn'. }
+  destruct Hg as (l & Hl & Hfst). split; [|exists l; split; assumption].
+  unfold get_num_dims. rewrite Hl. rewrite <- Hfst, map_length. reflexivity.
+Qed.
+
+(** the default declaration: every parameter owns itself *)
+Lemma default_owner names k : NoDup names -> In k names -> own_fold names k names None = Some k.
+Proof.
+  intros Hnd Hk. destruct (owner_exists names k names k Hk Hk (dcio_refl k)) as (w & Hw). rewrite Hw. f_equal.
+  destruct (owner_max names k names w Hk Hw) as (_ & Hm & Hmax).
+  apply dcio_same_length; [exact Hm|]. apply dcio_length in Hm. specialize (Hmax k Hk (dcio_refl k)). lia.
+Qed.
+Lemma filter_eq_single (names : list path) k : NoDup names -> In k names -> filter (fun p => path_eqb p k) names = [k].
+Proof.
+  induction names as [|a names IH]; intros Hnd Hk; [destruct Hk|]. inversion Hnd as [|? ? Hni Hnd']; subst. cbn [filter].
+  destruct (path_eqb a k) eqn:E.
+  - apply path_eqb_eq in E. subst a. f_equal.
+    clear IH Hk Hnd Hnd'. induction names as [|b names IH]; [reflexivity|]. cbn [filter].
+    rewrite path_eqb_neq by (intros ->; apply Hni; left; reflexivity). apply IH. intros H. apply Hni. right. exact H.
+  - destruct Hk as [->|Hk]; [rewrite path_eqb_refl in E; discriminate|]. apply IH; assumption.
+Qed.
+Lemma filter_filter {A} (f g : A -> bool) l : filter f (filter g l) = filter (fun x => g x && f x) l.
+Proof.
+  induction l as [|a l IH]; [reflexivity|]. cbn [filter]. destruct (g a); cbn [filter andb]; [|exact IH].
+  destruct (f a); rewrite IH; reflexivity.
+Qed.
+
+Theorem delete_restores_default : C17_delete_restores_default_stmt.
+Proof.
+  intros m named its Hits Hnd. split; [reflexivity|].
+  assert (Hnp : named_params (mk_nstate m None) = inr (map fst its)).
+  { unfold named_params. cbn [ns_model ns_named mk_nstate]. rewrite (param_names_items m its Hits). reflexivity. }
+  split; [exact Hnp|].
+  assert (Hg : get_named_params (mk_nstate m None) = inr its).
+  { unfold get_named_params. rewrite Hnp. cbn [ns_model mk_nstate]. rewrite Hits. f_equal.
+    unfold get_named_items. cbv zeta. set (names := map fst its) in *. rewrite create_alias_map_NoDup by exact Hnd.
+    set (ow := owners (map (alias_entry names) names)).
+    rewrite (flat_map_singletons _ (fun e => (fst e, match kw_get (fst e) its with Some v => v | None => 0%Qc end))).
+    - rewrite map_map. cbn [alias_entry fst]. unfold names. rewrite map_map.
+      rewrite <- (map_id its) at 2. apply map_ext_in. intros [k v] Hin. cbn [fst].
+      rewrite (kw_get_NoDup_In k v its Hnd Hin). reflexivity.
+    - intros e He. apply in_map_iff in He. destruct He as (k & <- & Hk). unfold named_entry, alias_entry. cbn [fst].
+      assert (Hown : owned_by ow k (aliases_of names k) = [k]).
+      { unfold owned_by. rewrite (filter_ext_in _ (fun p => path_eqb p k)).
+        - unfold aliases_of. rewrite filter_filter.
+          rewrite (filter_ext_in _ (fun p => path_eqb p k)); [apply filter_eq_single; assumption|].
+          intros p Hp. destruct (path_eqb p k) eqn:E; [|apply Bool.andb_false_r].
+          apply path_eqb_eq in E. subst p. rewrite dcio_refl. reflexivity.
+        - intros p Hp. apply in_aliases_of in Hp. destruct Hp as [Hp _]. unfold ow. rewrite owners_get, (default_owner names p Hnd Hp).
+          reflexivity. }
+      unfold read_param. cbn [fst snd]. rewrite Hown. cbn [last_opt].
+      destruct (kw_get_In_Some k its Hk) as (v & Hv). rewrite Hv. reflexivity. }
+  split; [exact Hg|]. unfold get_num_dims. rewrite Hg. reflexivity.
+Qed.
+
+(** * get_named_params after set_named_params *)
+Lemma no_ties_spec names named : no_ties names named = true ->
+  forall k n1 n2, In k names -> In n1 named -> In n2 named ->
+    does_contain_in_order k n1 = true -> does_contain_in_order k n2 = true -> length n1 = length n2 -> n1 = n2.
+Proof.
+  unfold no_ties. intros H k n1 n2 Hk H1 H2 M1 M2 L. rewrite forallb_forall in H. specialize (H k Hk).
+  rewrite forallb_forall in H. specialize (H n1 H1). rewrite forallb_forall in H. specialize (H n2 H2).
+  rewrite M1, M2, L, Nat.eqb_refl in H. cbn in H. apply path_eqb_eq, H.
+Qed.
+Lemma each_owns_spec names named : each_owns names named = true ->
+  forall n, In n named -> exists k, In k names /\ does_contain_in_order k n = true /\
+    forall n', In n' named -> does_contain_in_order k n' = true -> length n' <= length n.
+Proof.
+  unfold each_owns. intros H n Hn. rewrite forallb_forall in H. specialize (H n Hn). apply existsb_exists in H.
+  destruct H as (k & Hk & H). apply Bool.andb_true_iff in H. destruct H as [Hm H]. exists k. split; [exact Hk|]. split; [exact Hm|].
+  intros n' Hn' Hm'. rewrite forallb_forall in H. specialize (H n' Hn'). rewrite Hm' in H. cbn in H. apply Nat.leb_le, H.
+Qed.
+Lemma in_combine_vals (l : list path) qs n q : In (n, q) (combine l qs) -> In (n, V q) (combine l (vals qs)).
+Proof.
+  revert qs. induction l as [|x l IH]; intros [|y qs]; cbn; try tauto.
+  intros [E|H]; [left; injection E as -> ->; reflexivity | right; apply IH, H].
+Qed.
+Lemma entries_combine (f : path -> path * list path) (h : path * list path -> list (path * Qc)) named : forall qs,
+  length named = length qs -> (forall n q, In (n, q) (combine named qs) -> h (f n) = [(n, q)]) ->
+  flat_map h (map f named) = combine named qs.
+Proof.
+  induction named as [|n named IH]; intros [|q qs] Hl H; cbn in Hl; try discriminate; [reflexivity|].
+  cbn [map flat_map combine]. rewrite (H n q) by (left; reflexivity). cbn [app]. f_equal.
+  apply IH; [lia|]. intros n' q' Hin. apply H. right. exact Hin.
+Qed.
+
+Theorem get_named_after_set : C17_get_named_after_set_stmt.
+Proof.
+  intros m named qs s' its Hc Hits Hnd Hlen Hcons Hties Howns H.
+  destruct (set_named_positional m named (vals qs) [] s' its Hc Hits Hcons H) as (_ & its' & Hits' & Hnames & Hpos).
+  destruct (set_named_inv m named (vals qs) [] s' its Hits H) as (_ & m' & rest & _ & ->).
+  cbn [ns_model mk_nstate] in Hits'.
+  unfold get_named_params, named_params. cbn [ns_model ns_named mk_nstate]. rewrite Hits', (param_names_items m' its' Hits').
+  f_equal. unfold get_named_items. cbv zeta. rewrite Hnames. set (names := map fst its) in *.
+  rewrite create_alias_map_NoDup by exact Hnd. set (ow := owners (map (alias_entry names) named)).
+  pose proof (no_ties_spec _ _ Hties) as Ht. pose proof (each_owns_spec _ _ Howns) as Ho.
+  apply entries_combine; [symmetry; exact Hlen|]. intros n q Hin.
+  assert (Hn : In n named) by (apply in_combine_l in Hin; exact Hin).
+  assert (Ha : assigned named (vals qs) [] n = Some (V q)).
+  { unfold assigned. cbn [kw_last rev kw_get]. rewrite kw_last_NoDup by (apply combine_keys_NoDup, Hnd).
+    apply kw_get_NoDup_In; [apply combine_keys_NoDup, Hnd | apply in_combine_vals, Hin]. }
+  (* n owns some parameter *)
+  destruct (Ho n Hn) as (k & Hk & Hkm & Hkmax).
+  assert (Hkow : kw_get k ow = Some n).
+  { unfold ow. rewrite owners_get. destruct (owner_exists names k named n Hk Hn Hkm) as (w & Hw). rewrite Hw. f_equal.
+    destruct (owner_max names k named w Hk Hw) as (Hwd & Hwm & Hwmax).
+    apply (Ht k w n Hk Hwd Hn Hwm Hkm). specialize (Hwmax n Hn Hkm). specialize (Hkmax w Hwd Hwm). lia. }
+  assert (Hne : owned_by ow n (aliases_of names n) <> []).
+  { intros E. assert (Hin' : In k (owned_by ow n (aliases_of names n))).
+    { unfold owned_by. apply filter_In. split; [apply in_aliases_of; split; assumption|]. rewrite Hkow. apply path_eqb_refl. }
+    rewrite E in Hin'. destruct Hin'. }
+  destruct (read_param_owned ow n _ Hne) as (p & Hp & Hpin & Hpow). apply in_aliases_of in Hpin. destruct Hpin as [Hpn Hpm].
+  unfold ow in Hpow. rewrite owners_get in Hpow. destruct (owner_max names p named n Hpn Hpow) as (_ & _ & Hpmax).
+  (* the value of that parameter is the one assigned to n *)
+  assert (Hpi : exists old, In (p, old) its).
+  { unfold names in Hpn. apply in_map_iff in Hpn. destruct Hpn as ([p' old] & <- & Hi). exists old. exact Hi. }
+  destruct Hpi as (old & Hpi). destruct (Hpos p old Hpi) as [_ Hval].
+  destruct (Hval n Hn Hpm) as (w & q' & Hwd & Hwm & Hwa & Hget & Hwmax); [congruence|].
+  assert (Hwn : w = n).
+  { apply (Ht p w n Hpn Hwd Hn Hwm Hpm). specialize (Hpmax w Hwd Hwm). specialize (Hwmax n Hn Hpm). 
+    assert (assigned named (vals qs) [] n <> None) by congruence. specialize (Hwmax H0). lia. }
+  subst w. rewrite Ha in Hwa. injection Hwa as <-.
+  unfold named_entry, alias_entry. rewrite Hp. cbn [fst]. rewrite Hget. reflexivity.
+Qed.
+
+(** * Refutations by concrete witnesses *)
+Definition C17_b2 : bilateral := new_bilateral C10_u2 false true.
+Theorem side_global_leak_refuted : C17_side_global_leak_refuted_stmt.
+Proof.
+  exists C17_b2, ["ipsi"; "spread"], ["IItoIII"; "spread"], (qc 3 10).
+  split; [vm_compute; reflexivity|]. split; [vm_compute; reflexivity|]. split; [vm_compute; reflexivity|].
+  cbv zeta. split; [vm_compute; reflexivity|]. split; vm_compute; reflexivity.
+Qed.
+
+Theorem hpv_named_refuted : C17_hpv_named_refuted_stmt.
+Proof.
+  exists (new_hpv C10_u2), [["hpv"; "TtoII"; "spread"]], [qc 1 2].
+  split.
+  { eexists. split; [vm_compute; reflexivity|]. intros x [<-|[]]. left. reflexivity. }
+  split; [repeat constructor; intros []|]. split; [reflexivity|]. split; [vm_compute; reflexivity|].
+  cbv zeta. split; [vm_compute; reflexivity|]. intros H. vm_compute in H. discriminate H.
+Qed.
+
+Definition C17_g1 : graph := force_graph (build_graph 2 [ (("tumor", "T"), CList ["II"]); (("lnl", "II"), CList []) ]).
+Theorem no_ties_needed_refuted : C17_no_ties_needed_refuted_stmt.
+Proof.
+  exists (new_bilateral (new_uni C17_g1 [] 3) false true), [["TtoII"; "spread"]; ["ipsi"; "spread"]], [qc 1 4; qc 3 4].
+  split; [vm_compute; reflexivity|].
+  split; [repeat constructor; [intros [H|[]]; discriminate H | intros []]|].
+  split; [reflexivity|]. split; [vm_compute; reflexivity|].
+  cbv zeta. split; [vm_compute; reflexivity|]. intros H. vm_compute in H. discriminate H.
+Qed.
+(** * literal subsets of the parameter names satisfy every hypothesis *)
+Definition lit_core (m : model) (names : list path) : Prop :=
+  forall n k, In n names -> In k names ->
+    (does_contain_in_order k n = true -> n = k) /\ (memp n (cands m k) = true -> n = k) /\ memp k (cands m k) = true.
+
+Lemma lit_hyps m names named : lit_core m names -> incl named names ->
+  names_consistent m names named = true /\ no_ties names named = true /\ each_owns names named = true
+  /\ each_matches names named = true.
+Proof.
+  intros Hc Hincl. repeat split.
+  - unfold names_consistent. apply forallb_forall. intros n Hn. apply forallb_forall. intros k Hk.
+    destruct (Hc n k (Hincl _ Hn) Hk) as (H1 & H2 & _). destruct (Hc k k Hk Hk) as (_ & _ & H3).
+    destruct (does_contain_in_order k n) eqn:E1, (memp n (cands m k)) eqn:E2; try reflexivity.
+    + rewrite (H1 eq_refl) in E2. congruence.
+    + rewrite (H2 eq_refl), dcio_refl in E1. discriminate.
+  - unfold no_ties. apply forallb_forall. intros k Hk. apply forallb_forall. intros n1 H1. apply forallb_forall. intros n2 H2.
+    destruct (does_contain_in_order k n1) eqn:E1; [|reflexivity]. destruct (does_contain_in_order k n2) eqn:E2; [|reflexivity].
+    destruct (Hc n1 k (Hincl _ H1) Hk) as (F1 & _). destruct (Hc n2 k (Hincl _ H2) Hk) as (F2 & _).
+    rewrite (F1 E1), (F2 E2), path_eqb_refl. apply Bool.implb_true_r.
+  - unfold each_owns. apply forallb_forall. intros n Hn. apply existsb_exists. exists n. split; [apply Hincl, Hn|].
+    rewrite dcio_refl. cbn [andb]. apply forallb_forall. intros n' Hn'.
+    destruct (does_contain_in_order n n') eqn:E; [|reflexivity]. destruct (Hc n' n (Hincl _ Hn') (Hincl _ Hn)) as (F & _).
+    rewrite (F E). cbn [implb]. apply Nat.leb_refl.
+  - unfold each_matches. apply forallb_forall. intros n Hn. apply existsb_exists. exists n. split; [apply Hincl, Hn | apply dcio_refl].
+Qed.
+
+Lemma u_names_len2 u k : In k (u_names u) -> exists o s, k = [o; s].
+Proof.
+  unfold u_names, u_items. rewrite app_assoc, map_app, in_app_iff. intros [H|H].
+  - apply u_spread_key_head in H. destruct H as (n & s & -> & _). eauto.
+  - apply dists_items_heads in H. destruct H as (t & s & _ & -> & _). eauto.
+Qed.
+
+Lemma u_lit_core u : u_names_ok u = true -> lit_core (MUni u) (u_names u).
+Proof.
+  intros H n k Hn Hk. destruct (u_names_len2 u n Hn) as (o' & s' & ->). destruct (u_names_len2 u k Hk) as (o & s & ->).
+  cbn [cands u_cands]. repeat split.
+  - intros E. apply dcio_same_length; [exact E | reflexivity].
+  - rewrite memp_cons. intros E. apply Bool.orb_true_iff in E. destruct E as [E|E]; [apply path_eqb_eq, E|].
+    cbn in E. rewrite Bool.andb_false_r in E. discriminate.
+  - rewrite memp_cons, path_eqb_refl. reflexivity.
+Qed.
+
+(** Bilateral: the shape of every reported name *)
+Definition b_unpre (b : bilateral) (k : path) : Prop :=
+  exists o s, k = [o; s] /\ ((TNp (b_ipsi b) o /\ b_symT b = true) \/ (LNp (b_ipsi b) o /\ b_symL b = true) \/ TS (b_ipsi b) o).
+Definition b_pre (b : bilateral) (k : path) : Prop :=
+  exists sd o s, k = [sd; o; s] /\ SIDE sd /\ ((TNp (b_ipsi b) o /\ b_symT b = false) \/ (LNp (b_ipsi b) o /\ b_symL b = false)).
+
+Lemma T_item_shape u k : In k (map fst (u_tumor_items u)) -> exists o s, k = [o; s] /\ TNp u o.
+Proof.
+  intros H. pose proof (hT_Ti u k H) as Hh. apply sel_params_heads in H. destruct H as (e & s & _ & _ & -> & _).
+  exists (e_name e), s. split; [reflexivity | exact Hh].
+Qed.
+Lemma L_item_shape u k : In k (map fst (u_lnl_items u)) -> exists o s, k = [o; s] /\ LNp u o.
+Proof.
+  intros H. pose proof (hL_Li u k H) as Hh. apply sel_params_heads in H. destruct H as (e & s & _ & _ & -> & _).
+  exists (e_name e), s. split; [reflexivity | exact Hh].
+Qed.
+Lemma D_item_shape u k : In k (map fst (u_dist_items u)) -> exists o s, k = [o; s] /\ TS u o.
+Proof. intros H. apply dists_items_heads in H. destruct H as (t & s & Ht & -> & _). exists t, s. split; [reflexivity | exact Ht]. Qed.
+Lemma pre_key_inv sd (X : list (path * Qc)) k : In k (map fst (pre [sd] X)) -> exists k0, k = sd :: k0 /\ In k0 (map fst X).
+Proof. rewrite pre_keys. intros H. apply in_map_iff in H. destruct H as (k0 & <- & H). exists k0. split; [reflexivity | exact H]. Qed.
+
+Lemma b_names_class b k : b_names_ok b = true -> In k (map fst (b_items b)) -> b_unpre b k \/ b_pre b k.
+Proof.
+  intros H Hk. pose proof (contra_TNp b H) as HcT. pose proof (contra_LNp b H) as HcL.
+  unfold b_items in Hk. cbv zeta in Hk.
+  assert (UT : b_symT b = true -> In k (map fst (u_tumor_items (b_ipsi b))) -> b_unpre b k).
+  { intros Hs Hin. destruct (T_item_shape _ _ Hin) as (o & s & -> & Ho). exists o, s. split; [reflexivity|]. left. split; assumption. }
+  assert (UL : b_symL b = true -> In k (map fst (u_lnl_items (b_ipsi b))) -> b_unpre b k).
+  { intros Hs Hin. destruct (L_item_shape _ _ Hin) as (o & s & -> & Ho). exists o, s. split; [reflexivity|]. right. left. split; assumption. }
+  assert (UD : In k (map fst (u_dist_items (b_ipsi b))) -> b_unpre b k).
+  { intros Hin. destruct (D_item_shape _ _ Hin) as (o & s & -> & Ho). exists o, s. split; [reflexivity|]. right. right. exact Ho. }
+  assert (PT : forall sd u, SIDE sd -> (forall x, TNp u x -> TNp (b_ipsi b) x) -> b_symT b = false ->
+                            In k (map fst (pre [sd] (u_tumor_items u))) -> b_pre b k).
+  { intros sd u Hsd Hu Hs Hin. destruct (pre_key_inv _ _ _ Hin) as (k0 & -> & Hin0).
+    destruct (T_item_shape _ _ Hin0) as (o & s & -> & Ho). exists sd, o, s. split; [reflexivity|]. split; [exact Hsd|]. left. split; [apply Hu, Ho | exact Hs]. }
+  assert (PL : forall sd u, SIDE sd -> (forall x, LNp u x -> LNp (b_ipsi b) x) -> b_symL b = false ->
+                            In k (map fst (pre [sd] (u_lnl_items u))) -> b_pre b k).
+  { intros sd u Hsd Hu Hs Hin. destruct (pre_key_inv _ _ _ Hin) as (k0 & -> & Hin0).
+    destruct (L_item_shape _ _ Hin0) as (o & s & -> & Ho). exists sd, o, s. split; [reflexivity|]. split; [exact Hsd|]. right. split; [apply Hu, Ho | exact Hs]. }
+  assert (Ii : forall x, TNp (b_ipsi b) x -> TNp (b_ipsi b) x) by auto.
+  assert (Il : forall x, LNp (b_ipsi b) x -> LNp (b_ipsi b) x) by auto.
+  assert (Ci : forall x, TNp (b_contra b) x -> TNp (b_ipsi b) x) by (intros x; apply HcT).
+  assert (Cl : forall x, LNp (b_contra b) x -> LNp (b_ipsi b) x) by (intros x; apply HcL).
+  destruct (b_symT b) eqn:ET, (b_symL b) eqn:EL; rewrite ?pre_app, ?map_app, ?in_app_iff in Hk.
+  - destruct Hk as [Hk|[Hk|Hk]]; left; auto.
+  - destruct Hk as [Hk|[Hk|[Hk|Hk]]]; [left; auto | right; apply (PL "ipsi" (b_ipsi b)); auto using SIDE_ipsi
+                                     | right; apply (PL "contra" (b_contra b)); auto using SIDE_contra | left; auto].
+  - destruct Hk as [Hk|[Hk|[Hk|Hk]]]; [right; apply (PT "ipsi" (b_ipsi b)); auto using SIDE_ipsi
+                                     | right; apply (PT "contra" (b_contra b)); auto using SIDE_contra | left; auto | left; auto].
+  - destruct Hk as [[Hk|Hk]|[[Hk|Hk]|Hk]];
+      [right; apply (PT "ipsi" (b_ipsi b)); auto using SIDE_ipsi | right; apply (PL "ipsi" (b_ipsi b)); auto using SIDE_ipsi
+       | right; apply (PT "contra" (b_contra b)); auto using SIDE_contra | right; apply (PL "contra" (b_contra b)); auto using SIDE_contra
+       | left; auto].
+Qed.
+
+Lemma b_unpre_not_side b o s : b_names_ok b = true -> b_unpre b [o; s] -> ~ SIDE o.
+Proof.
+  intros H (o' & s' & E & Hc) Hs. injection E as <- <-. destruct (b_names_ok_parts b H) as (Hi & _).
+  destruct Hc as [[Ho _]|[[Ho _]|Ho]].
+  - exact (EN_SIDE_disj _ Hi o (TNp_EN _ _ Ho) Hs).
+  - exact (EN_SIDE_disj _ Hi o (LNp_EN _ _ Ho) Hs).
+  - exact (TS_SIDE_disj _ Hi o Ho Hs).
+Qed.
+Lemma b_pre_not_side b sd o s : b_names_ok b = true -> b_pre b [sd; o; s] -> SIDE sd /\ ~ SIDE o.
+Proof.
+  intros H (sd' & o' & s' & E & Hsd & Hc). injection E as <- <- <-. split; [exact Hsd|]. intros Hs.
+  destruct (b_names_ok_parts b H) as (Hi & _). destruct Hc as [[Ho _]|[Ho _]].
+  - exact (EN_SIDE_disj _ Hi o (TNp_EN _ _ Ho) Hs).
+  - exact (EN_SIDE_disj _ Hi o (LNp_EN _ _ Ho) Hs).
+Qed.
+Lemma b_class_conflict b sd o s : b_names_ok b = true -> b_unpre b [o; s] -> b_pre b [sd; o; s] -> False.
+Proof.
+  intros H (o1 & s1 & E1 & C1) (sd2 & o2 & s2 & E2 & _ & C2). injection E1 as <- <-. injection E2 as <- <- <-.
+  destruct (b_names_ok_parts b H) as (Hi & _).
+  destruct C1 as [[T1 S1]|[[L1 S1]|D1]], C2 as [[T2 S2]|[L2 S2]]; try congruence.
+  - exact (TNp_LNp_disj _ Hi o T1 L2).
+  - exact (TNp_LNp_disj _ Hi o T2 L1).
+  - exact (EN_TS_disj _ Hi o (TNp_EN _ _ T2) D1).
+  - exact (EN_TS_disj _ Hi o (LNp_EN _ _ L2) D1).
+Qed.
+Lemma not_side_mem o : ~ SIDE o -> mem o sides = false.
+Proof. intros H. apply mem_false. intros [<-|[<-|[]]]; apply H; [left | right]; reflexivity. Qed.
+Lemma not_side_eqb o : ~ SIDE o -> String.eqb o "ipsi" = false /\ String.eqb o "contra" = false.
+Proof.
+  intros H. split; apply (str_eqb_neq o); intros ->; apply H; [left | right]; reflexivity.
+Qed.
+
+Lemma side_cands_two side o s : ~ SIDE o ->
+  side_cands side [o; s] = [side; o; s] :: [o; s] :: [side; s] :: (if mem s sides then [] else [[s]]).
+Proof. intros H. cbn [side_cands eff_cands head_of partition_key fst app]. rewrite (not_side_mem o H). reflexivity. Qed.
+
+Lemma b_lit_core b : b_names_ok b = true -> lit_core (MBi b) (map fst (b_items b)).
+Proof.
+  intros H n k Hn Hk. pose proof (b_names_class b n H Hn) as Cn. pose proof (b_names_class b k H Hk) as Ck.
+  assert (Hlen2 : forall x, b_unpre b x -> length x = 2) by (intros x (o & s & -> & _); reflexivity).
+  assert (Hlen3 : forall x, b_pre b x -> length x = 3) by (intros x (sd & o & s & -> & _); reflexivity).
+  (* the candidate list of k *)
+  assert (Hcands : exists sd o s, b_cands k = [sd; o; s] :: [o; s] :: [sd; s] :: (if mem s sides then [] else [[s]])
+                                 /\ SIDE sd /\ ~ SIDE o /\ (k = [o; s] \/ k = [sd; o; s])).
+  { destruct Ck as [Ck|Ck].
+    - pose proof Ck as (o & s & -> & _). pose proof (b_unpre_not_side b o s H Ck) as Ho.
+      exists "ipsi", o, s. cbn [b_cands]. destruct (not_side_eqb o Ho) as [-> ->].
+      split; [apply side_cands_two, Ho|]. split; [apply SIDE_ipsi|]. split; [exact Ho | left; reflexivity].
+    - pose proof Ck as (sd & o & s & -> & _). destruct (b_pre_not_side b sd o s H Ck) as [Hsd Ho].
+      exists sd, o, s. cbn [b_cands]. destruct Hsd as [->| ->]; cbn [String.eqb Ascii.eqb Bool.eqb andb];
+        (split; [apply side_cands_two, Ho|]); (split; [first [apply SIDE_ipsi | apply SIDE_contra]|]); (split; [exact Ho | right; reflexivity]). }
+  destruct Hcands as (sd & o & s & Hcd & Hsd & Ho & Hkshape).
+  assert (Hconf : forall x y, x = [o; s] -> y = [sd; o; s] -> In x (map fst (b_items b)) -> In y (map fst (b_items b)) -> False).
+  { intros x y -> -> Hx Hy. destruct (b_names_class b _ H Hx) as [Ux|Px]; [|apply Hlen3 in Px; discriminate].
+    destruct (b_names_class b _ H Hy) as [Uy|Py]; [apply Hlen2 in Uy; discriminate|].
+    exact (b_class_conflict b sd o s H Ux Py). }
+  cbn [cands]. repeat split.
+  - (* in-order containment between two reported names is equality *)
+    intros E. pose proof (dcio_length _ _ E) as Hl.
+    destruct Cn as [Cn|Cn], Ck as [Ck|Ck].
+    + apply dcio_same_length; [exact E|]. rewrite (Hlen2 _ Cn), (Hlen2 _ Ck). reflexivity.
+    + exfalso. pose proof Cn as (o' & s' & -> & _). pose proof Ck as (sd2 & o2 & s2 & -> & _).
+      destruct (b_pre_not_side b _ _ _ H Ck) as [Hsd2 _]. pose proof (b_unpre_not_side b _ _ H Cn) as Ho'.
+      cbn [does_contain_in_order] in E.
+      rewrite (str_eqb_neq sd2 o') in E by (intros <-; apply Ho', Hsd2).
+      assert (E' : does_contain_in_order [o2; s2] [o'; s'] = true) by exact E.
+      apply dcio_same_length in E'; [|reflexivity]. injection E' as -> ->.
+      exact (b_class_conflict b sd2 o2 s2 H Cn Ck).
+    + exfalso. rewrite (Hlen3 _ Cn), (Hlen2 _ Ck) in Hl. lia.
+    + apply dcio_same_length; [exact E|]. rewrite (Hlen3 _ Cn), (Hlen3 _ Ck). reflexivity.
+  - (* a reported name among the keywords looked up for k is k itself *)
+    intros E. apply memp_In in E. rewrite Hcd in E.
+    destruct E as [E|[E|[E|E]]].
+    + destruct Hkshape as [->| ->]; [exfalso; apply (Hconf [o; s] [sd; o; s]); auto; subst n; exact Hn | symmetry; exact E].
+    + destruct Hkshape as [->| ->]; [symmetry; exact E | exfalso; apply (Hconf [o; s] [sd; o; s]); auto; subst n; exact Hn].
+    + exfalso. subst n. destruct Cn as [Cn|Cn]; [|apply Hlen3 in Cn; discriminate].
+      exact (b_unpre_not_side b sd s H Cn Hsd).
+    + exfalso. destruct (mem s sides); [destruct E|]. destruct E as [<-|[]].
+      destruct Cn as [Cn|Cn]; [apply Hlen2 in Cn | apply Hlen3 in Cn]; discriminate.
+  - apply memp_In. rewrite Hcd. destruct Hkshape as [->| ->]; [right; left | left]; reflexivity.
+Qed.
+
+Lemma model_lit_core m its : covered m = true -> param_items m = Some its -> lit_core m (map fst its).
+Proof.
+  intros Hc Hits. destruct m as [u|b|ml|h]; cbn [covered] in Hc; try discriminate.
+  - assert (E : its = u_got u) by (cbn in Hits; injection Hits as <-; reflexivity).
+    rewrite E, (u_got_spec u Hc). apply u_lit_core, Hc.
+  - assert (E : its = b_got b) by (cbn in Hits; injection Hits as <-; reflexivity).
+    destruct (bi_names_nodup b Hc) as [E' _]. rewrite E, E'. apply b_lit_core, Hc.
+Qed.
+
+Theorem literal_subset_hyps : C17_literal_subset_hyps_stmt.
+Proof. intros m named its Hc Hits Hincl. apply lit_hyps; [apply model_lit_core; assumption | exact Hincl]. Qed.
+
+Theorem literal_subset_roundtrip : C17_literal_subset_roundtrip_stmt.
+Proof.
+  intros m named qs s' its Hc Hits Hnd Hincl Hlen H.
+  destruct (literal_subset_hyps m named its Hc Hits Hincl) as (Hcons & Hties & Howns & _).
+  pose proof (get_named_after_set m named qs s' its Hc Hits Hnd Hlen Hcons Hties Howns H) as Hget.
+  split; [exact Hget|]. split.
+  { unfold get_num_dims. rewrite Hget, combine_length, Hlen, Nat.min_id. reflexivity. }
+  destruct (set_named_positional m named (vals qs) [] s' its Hc Hits Hcons H) as (_ & its' & Hits' & Hnames & Hpos).
+  pose proof (model_lit_core m its Hc Hits) as Hcore.
+  exists its'. split; [exact Hits'|]. split; [exact Hnames|]. split.
+  - intros n q Hin. assert (Hn : In n named) by (apply in_combine_l in Hin; exact Hin).
+    assert (Hnn : In n (map fst its)) by (apply Hincl, Hn).
+    pose proof Hnn as Hold. apply in_map_iff in Hold. destruct Hold as ([n' old] & E & Hio). cbn [fst] in E. subst n'.
+    assert (Ha : assigned named (vals qs) [] n = Some (V q)).
+    { unfold assigned. cbn [kw_last rev kw_get]. rewrite kw_last_NoDup by (apply combine_keys_NoDup, Hnd).
+      apply kw_get_NoDup_In; [apply combine_keys_NoDup, Hnd | apply in_combine_vals, Hin]. }
+    destruct (Hpos n old Hio) as [_ Hval].
+    destruct (Hval n Hn (dcio_refl n)) as (w & q' & Hwd & Hwm & Hwa & Hg & _); [congruence|].
+    destruct (Hcore w n (Hincl _ Hwd) Hnn) as (F & _). rewrite (F Hwm) in Hwa. rewrite Ha in Hwa. injection Hwa as <-. exact Hg.
+  - intros k old Hio Hni. destruct (Hpos k old Hio) as [Hkeep _]. apply Hkeep. intros n Hn Hm. exfalso.
+    assert (Hk : In k (map fst its)) by (apply in_map_iff; exists (k, old); split; [reflexivity | exact Hio]).
+    destruct (Hcore n k (Hincl _ Hn) Hk) as (F & _). apply Hni. rewrite <- (F Hm). exact Hn.
+Qed.
